@@ -27,7 +27,7 @@ pub static PROP: PropDef = PropDef {
     run_tape,
     exhaustive: Some(exhaustive),
     run_direct: Some(run_direct),
-    min_classes: &[("recv_boundary", 200), ("send_boundary", 200), ("recv_refused", 500), ("recv_accepted", 500), ("send_refused", 200), ("send_ok", 500), ("settings_after_call", 200), ("status_431_sent", 100), ("recv_on_split_half", 200), ("recv_wire_longer_than_decoded", 500), ("send_on_split_half", 200)],
+    min_classes: &[("recv_boundary", 200), ("send_boundary", 200), ("recv_refused", 500), ("recv_accepted", 500), ("send_refused", 200), ("send_ok", 500), ("settings_after_call", 200), ("status_431_sent", 100), ("recv_on_split_half", 200), ("recv_wire_longer_than_decoded", 500), ("settings_while_waiting_for_a_stream", 100), ("send_on_split_half", 200)],
     extra: None,
 };
 
@@ -62,6 +62,10 @@ pub struct Case {
     /// 0 = static references / plain literals, 1 = Huffman literals, 2 = Huffman literals with a padding value of 0xff
     /// bytes (about 3.25 wire bytes per value byte), 3 = plain literals with non-minimal prefixed integers
     pub wire: u8,
+    /// SendReqHeaders: send_request is called before the peer's SETTINGS are known and has to wait for a stream (the peer
+    /// allows none yet); the SETTINGS are processed during that wait, then the peer grants the stream. What goes out then
+    /// goes out under a known limit.
+    pub open_wait: bool,
 }
 
 /// drain the body, then ask for the trailers
@@ -289,7 +293,7 @@ async fn client_app(net: Net, c: Case, o: Shared<Obs>, go: Signal, sp: Spawner) 
     let small = || http::Request::builder().method("GET").uri("https://a/").body(()).unwrap();
     match c.kind {
         Kind::SendReqHeaders => {
-            if c.settings_first {
+            if c.settings_first && !c.open_wait {
                 go.wait(0).await;
             }
             let f = fields_of_size(true, true, c.size).unwrap();
@@ -368,7 +372,7 @@ async fn client_app(net: Net, c: Case, o: Shared<Obs>, go: Signal, sp: Spawner) 
 }
 
 fn case_json(c: &Case) -> Value {
-    json!({"kind": format!("{:?}", c.kind), "limit": c.limit.map(|l| l.to_string()), "size": c.size, "settings_first": c.settings_first, "peer_limit": c.peer_limit.map(|l| l.to_string()), "tiny": c.tiny, "split": c.split, "wire": c.wire})
+    json!({"kind": format!("{:?}", c.kind), "limit": c.limit.map(|l| l.to_string()), "size": c.size, "settings_first": c.settings_first, "peer_limit": c.peer_limit.map(|l| l.to_string()), "tiny": c.tiny, "split": c.split, "wire": c.wire, "open_wait": c.open_wait})
 }
 
 pub fn run_case(c: &Case, sched: &[u16], ctx: &mut Ctx) -> Verdict {
@@ -387,6 +391,11 @@ pub fn run_case(c: &Case, sched: &[u16], ctx: &mut Ctx) -> Verdict {
     let raw = side.other();
     let net = Net::new();
     net.set_raw(raw);
+    if c.open_wait {
+        let mut g = net.lock();
+        g.ends[Side::Client.idx()].stream_credit[0] = 0;
+        g.ends[Side::Client.idx()].grants_frozen = true;
+    }
     let o: Shared<Obs> = shared(Obs::default());
     let go = Signal::new();
     let mut ex = Exec::new();
@@ -445,6 +454,12 @@ pub fn run_case(c: &Case, sched: &[u16], ctx: &mut Ctx) -> Verdict {
             ops.extend(preamble);
             ops.extend([PeerOp::Barrier, PeerOp::Adopt(1, 0), PeerOp::Write(1, peer::simple_response_headers("200")), PeerOp::Write(1, peer::data_frame(b"body")), PeerOp::Write(1, section.clone()), PeerOp::Fin(1), PeerOp::Barrier, PeerOp::Signal(0), PeerOp::Barrier]);
             ops.extend([PeerOp::Adopt(2, 4), PeerOp::Write(2, peer::simple_response_headers("204")), PeerOp::Fin(2)]);
+        }
+        Kind::SendReqHeaders if c.open_wait => {
+            // the client is parked in send_request (no stream credit); SETTINGS arrive and are processed; then the stream
+            ops.push(PeerOp::Barrier);
+            ops.extend(preamble);
+            ops.extend([PeerOp::Barrier, PeerOp::GrantBidi(1)]);
         }
         Kind::SendReqHeaders => {
             if c.settings_first {
@@ -566,7 +581,7 @@ pub fn run_case(c: &Case, sched: &[u16], ctx: &mut Ctx) -> Verdict {
             ctx.nontrivial(c);
         }
     } else {
-        let eff = if c.settings_first { c.limit.unwrap_or(u64::MAX) } else { u64::MAX };
+        let eff = if c.settings_first || c.open_wait { c.limit.unwrap_or(u64::MAX) } else { u64::MAX };
         let fits = c.size <= eff;
         match (&obs.result, fits) {
             (Some(Ok(())), true) => ctx.class("send_ok"),
@@ -591,8 +606,11 @@ pub fn run_case(c: &Case, sched: &[u16], ctx: &mut Ctx) -> Verdict {
             (None, false) => {}
             (got, _) => return fail(format!("HEADERS frames on the wire have reference sizes {sizes:?}; frame under test (index {idx}): {got:?}, call allowed: {fits}, size {} limit in effect {eff}", c.size)),
         }
-        if !c.settings_first {
+        if !c.settings_first && !c.open_wait {
             ctx.class("settings_after_call");
+        }
+        if c.open_wait {
+            ctx.class("settings_while_waiting_for_a_stream");
         }
         if c.split {
             ctx.class("send_on_split_half");
@@ -652,9 +670,14 @@ fn exhaustive(ctx: &mut Ctx, shard: usize, nshards: usize) -> Verdict {
                                     if wire != 0 && (!recv || tiny) {
                                         continue;
                                     }
-                                    let c = Case { kind, limit, size, settings_first, peer_limit, tiny, split, wire };
+                                    let c = Case { kind, limit, size, settings_first, peer_limit, tiny, split, wire, open_wait: false };
                                     run_case(&c, &[], ctx)?;
                                     n += 1;
+                                    if kind == Kind::SendReqHeaders && !settings_first {
+                                        let c = Case { open_wait: true, ..c };
+                                        run_case(&c, &[], ctx)?;
+                                        n += 1;
+                                    }
                                 }
                             }
                         }
@@ -684,7 +707,7 @@ fn run_tape(tape: &[u16], ctx: &mut Ctx) -> Verdict {
         2 => t.int(0, 1200),
         _ => t.int(0, 70_000),
     };
-    let c = Case { kind, limit, size, settings_first: t.chance(2, 3), peer_limit: if t.bool() { None } else { Some(*t.choose(&[0u64, 41, 42, 43, 1000])) }, tiny: t.chance(1, 4), split: t.bool() && splittable(kind), wire: if t.bool() { 0 } else { t.pick(4) as u8 } };
+    let c = Case { kind, limit, size, settings_first: t.chance(2, 3), peer_limit: if t.bool() { None } else { Some(*t.choose(&[0u64, 41, 42, 43, 1000])) }, tiny: t.chance(1, 4), split: t.bool() && splittable(kind), wire: if t.bool() { 0 } else { t.pick(4) as u8 }, open_wait: kind == Kind::SendReqHeaders && t.chance(1, 3) };
     let mut c = c;
     let recv = matches!(c.kind, Kind::RecvReqHeaders | Kind::RecvReqTrailers | Kind::RecvRespHeaders | Kind::RecvRespTrailers);
     if recv {
@@ -700,7 +723,7 @@ fn run_tape(tape: &[u16], ctx: &mut Ctx) -> Verdict {
 fn run_direct(d: &Value, ctx: &mut Ctx) -> Verdict {
     let kind = KINDS.iter().copied().find(|k| Some(format!("{k:?}").as_str()) == d["kind"].as_str()).ok_or_else(|| Failure::fault("bad kind"))?;
     let num = |k: &str| d[k].as_str().and_then(|s| s.parse::<u64>().ok());
-    let c = Case { kind, limit: num("limit"), size: d["size"].as_u64().unwrap_or(0), settings_first: d["settings_first"].as_bool().unwrap_or(true), peer_limit: num("peer_limit"), tiny: d["tiny"].as_bool().unwrap_or(false), split: d["split"].as_bool().unwrap_or(false), wire: d["wire"].as_u64().unwrap_or(0) as u8 };
+    let c = Case { kind, limit: num("limit"), size: d["size"].as_u64().unwrap_or(0), settings_first: d["settings_first"].as_bool().unwrap_or(true), peer_limit: num("peer_limit"), tiny: d["tiny"].as_bool().unwrap_or(false), split: d["split"].as_bool().unwrap_or(false), wire: d["wire"].as_u64().unwrap_or(0) as u8, open_wait: d["open_wait"].as_bool().unwrap_or(false) };
     let sched: Vec<u16> = d["sched"].as_array().map(|a| a.iter().map(|x| x.as_u64().unwrap_or(0) as u16).collect()).unwrap_or_default();
     run_case(&c, &sched, ctx)
 }
